@@ -137,7 +137,7 @@ Obs(m) == [kv |-> m.kv,
 (***************************************************************************)
 CSet(k, v)            == [c |-> "SET", k |-> k, v |-> v]
 CDel(k)               == [c |-> "DEL", k |-> k]
-CCreate(n, cfg, al)   == [c |-> "VCREATE", n |-> n, cfg |-> cfg, al |-> al]
+CCreate(n, cfg, al, mc) == [c |-> "VCREATE", n |-> n, cfg |-> cfg, al |-> al, mc |-> mc]
 CDrop(n)              == [c |-> "VDROP", n |-> n]
 CAdd(n, id, vec, meta) == [c |-> "VADD", n |-> n, id |-> id, vec |-> vec, meta |-> meta]
 CVDel(n, id, ts)      == [c |-> "VDEL", n |-> n, id |-> id, ts |-> ts]
@@ -256,7 +256,7 @@ RStep(rs, c) ==
     [] c.c = "VCREATE" ->
          IF rs.agg[c.n].present THEN rs
          ELSE [rs EXCEPT !.agg[c.n] = [present |-> TRUE, fresh |-> TRUE, cfg |-> c.cfg, prec |-> CfgPrec[c.cfg],
-                                       maint |-> Nil, al |-> c.al, ent |-> NoEnt, del |-> {}]]
+                                       maint |-> c.mc, al |-> c.al, ent |-> NoEnt, del |-> {}]]
     [] c.c = "VDROP" -> [rs EXCEPT !.agg[c.n] = AggNone, !.base[c.n] = NoIndex]
     [] c.c = "VADD" ->
          IF rs.agg[c.n].present
@@ -317,7 +317,7 @@ Recover(s, f) ==
 (***************************************************************************)
 EmitIndex(n, ix) ==
   IF ix.cfg = Nil THEN <<>>
-  ELSE <<CCreate(n, ix.cfg, ix.al)>>
+  ELSE <<CCreate(n, ix.cfg, ix.al, Nil)>>
        \o (IF ix.prec # CfgPrec[ix.cfg] THEN <<CCompress(n, ix.prec)>> ELSE <<>>)
        \o (IF ix.maint # Nil THEN <<CConfig(n, ix.maint)>> ELSE <<>>)
        \o [j \in 1..Len(LiveSeq(ix)) |->
@@ -359,14 +359,14 @@ KVDelete(k) ==
   /\ Log([op |-> "KVDelete", k |-> k, res |-> "ok"])
   /\ UNCHANGED <<snap, clock, dev, delat>>
 
-\* VCreate journals VCREATE before CreateVectorIndex validates (harmless: replay ignores a
-\* VCREATE for a name it already knows); VCONFIG only after success.
+\* VCreate journals VCREATE (carrying the maintenance config) before CreateVectorIndex validates
+\* (harmless: replay ignores a VCREATE for a name it already knows).
 VCreate(n, cfg, mc, al) ==
   /\ IF Exists(n)
-     THEN /\ Journal(<<CCreate(n, cfg, al)>>)
+     THEN /\ Journal(<<CCreate(n, cfg, al, mc)>>)
           /\ Log([op |-> "VCreate", n |-> n, cfg |-> cfg, mc |-> mc, al |-> al, res |-> "err"])
           /\ UNCHANGED mem
-     ELSE /\ Journal(<<CCreate(n, cfg, al)>> \o (IF mc # Nil THEN <<CConfig(n, mc)>> ELSE <<>>))
+     ELSE /\ Journal(<<CCreate(n, cfg, al, mc)>>)
           /\ SetIx(n, NewIndex(cfg, mc, al))
           /\ Log([op |-> "VCreate", n |-> n, cfg |-> cfg, mc |-> mc, al |-> al, res |-> "ok"])
   /\ UNCHANGED <<snap, clock, dev, delat>>
@@ -582,7 +582,7 @@ SeedIx == FoldLeft(LAMBDA ix, id : IxAdd(ix, id, SeedVec, NoMeta), NewIndex(Seed
 SeedOps == <<[op |-> "VCreate", n |-> GName, cfg |-> SeedCfg, mc |-> Nil, al |-> Nil, res |-> "ok"]>>
            \o [j \in 1..Len(SeedIds) |-> [op |-> "VAdd", n |-> GName, id |-> SeedIds[j], vec |-> SeedVec,
                                              meta |-> [k \in MKeys |-> Nil], res |-> "ok"]]
-SeedFile == <<CCreate(GName, SeedCfg, Nil)>> \o [j \in 1..Len(SeedIds) |-> CAdd(GName, SeedIds[j], SeedVec, NoMeta)]
+SeedFile == <<CCreate(GName, SeedCfg, Nil, Nil)>> \o [j \in 1..Len(SeedIds) |-> CAdd(GName, SeedIds[j], SeedVec, NoMeta)]
 
 Init ==
   /\ snap = <<>> /\ clock = 0 /\ dev = {} /\ delat = [x \in GNodes |-> 0]
